@@ -23,6 +23,7 @@ import (
 	"time"
 	"unicode/utf8"
 
+	"github.com/gorilla/mux"
 	"google.golang.org/protobuf/proto"
 	"google.golang.org/protobuf/types/known/timestamppb"
 )
@@ -66,9 +67,13 @@ type c15Keyset struct {
 	HashHex  string `json:"hash"`
 	BlockHex string `json:"block,omitempty"` // empty: no block key
 
+	// mode 3 (hubs built from their configuration): the texts of the options hashkey / blockkey of
+	// section [sessions]; Absent: the option blockkey is not in the configuration at all
+	Absent bool `json:"absent,omitempty"`
+
 	hash, block []byte
-	hashNo      int
-	blockNo     int // -1: none
+	hashNo      string // the number of the hash key as a Coq term
+	blockNo     string // "": none
 	codec       *SessionIdCodec
 }
 
@@ -92,21 +97,42 @@ func (u *c15Universe) intern(m map[string]int, k string) int {
 
 func (u *c15Universe) initKeyset(k *c15Keyset) {
 	k.hash, _ = hex.DecodeString(k.HashHex)
-	k.hashNo = u.intern(u.keyNo, "h"+k.HashHex)
-	k.blockNo = -1
+	k.hashNo = strconv.Itoa(u.intern(u.keyNo, "h"+k.HashHex))
+	k.blockNo = ""
 	k.block = nil
 	if k.BlockHex != "" {
 		k.block, _ = hex.DecodeString(k.BlockHex)
-		k.blockNo = u.intern(u.keyNo, "b"+k.BlockHex)
+		k.blockNo = strconv.Itoa(u.intern(u.keyNo, "b"+k.BlockHex))
 	}
 	k.codec = NewSessionIdCodec(k.hash, k.block)
 }
 
-func (k *c15Keyset) coq() string {
-	if k.blockNo < 0 {
-		return fmt.Sprintf("kx %d", k.hashNo)
+// the number of a key of a configured hub: key_num of corr/Run_C15.v (a leading 1, then the bytes)
+func c15KeyNum(b []byte) string { return "0x01" + hex.EncodeToString(b) }
+
+// a configured key set: the keys are the bytes of the configuration texts; the codec is the one
+// of the hub NewHub built (set by the runner; nil when NewHub refused the configuration)
+func (u *c15Universe) initConfigKeyset(k *c15Keyset) {
+	k.hash, _ = hex.DecodeString(k.HashHex)
+	k.hashNo = c15KeyNum(k.hash)
+	k.blockNo = ""
+	k.block = nil
+	if k.BlockHex != "" && !k.Absent {
+		k.block, _ = hex.DecodeString(k.BlockHex)
+		k.blockNo = c15KeyNum(k.block)
 	}
-	return fmt.Sprintf("kb %d %d", k.hashNo, k.blockNo)
+	k.codec = nil
+}
+
+func (k *c15Keyset) coq() string {
+	if k.blockNo == "" {
+		return fmt.Sprintf("kx %s", k.hashNo)
+	}
+	return fmt.Sprintf("kb %s %s", k.hashNo, k.blockNo)
+}
+
+func (k *c15Keyset) coqCfg() string {
+	return fmt.Sprintf("cf %s %s", c15Bx(k.hash), c15Bx(k.block))
 }
 
 // ---- data values ------------------------------------------------------------------------
@@ -173,13 +199,13 @@ func c15Ctr(key, iv, text []byte) []byte {
 
 func (a *c15Answers) addMac(k *c15Keyset, msg []byte) []byte {
 	mac := c15Hmac(k.hash, msg)
-	a.macs = append(a.macs, fmt.Sprintf("am %d %d %s", k.hashNo, c15Chk(msg), c15Bx(mac)))
+	a.macs = append(a.macs, fmt.Sprintf("am %s %d %s", k.hashNo, c15Chk(msg), c15Bx(mac)))
 	return mac
 }
 
 func (a *c15Answers) addCtr(k *c15Keyset, iv, text []byte) []byte {
 	out := c15Ctr(k.block, iv, text)
-	a.ctrs = append(a.ctrs, fmt.Sprintf("am %d %d %s", k.blockNo, c15Chk(append(append([]byte{}, iv...), text...)), c15Bx(out)))
+	a.ctrs = append(a.ctrs, fmt.Sprintf("am %s %d %s", k.blockNo, c15Chk(append(append([]byte{}, iv...), text...)), c15Bx(out)))
 	return out
 }
 
@@ -443,7 +469,7 @@ type c15Op struct {
 
 type c15Case struct {
 	Id      int         `json:"id"`
-	Mode    int         `json:"mode"` // 0 codec/model only, 1 codec + P_C15, 2 hub
+	Mode    int         `json:"mode"` // 0 codec/model only, 1 codec + P_C15, 2 hub, 3 codecs of hubs built from configurations + P_C15
 	Keys    []c15Keyset `json:"keys,omitempty"`
 	NCaches int         `json:"ncaches,omitempty"`
 	Size    int         `json:"size,omitempty"`
@@ -451,6 +477,8 @@ type c15Case struct {
 	Finding string      `json:"finding,omitempty"`
 	Note    string      `json:"note,omitempty"`
 	Outs    []string    `json:"outs,omitempty"`
+
+	built []bool // mode 3: NewHub returned a hub for the configuration
 }
 
 type c15Minted struct {
@@ -482,6 +510,11 @@ func c15RunCodec(u *c15Universe, c *c15Case, st *c15RunStats) []string {
 	for i := range c.Keys {
 		u.initKeyset(&c.Keys[i])
 	}
+	return c15RunCodecOps(u, c, st)
+}
+
+// the operations of a codec case on the codecs of its key sets (already set up)
+func c15RunCodecOps(u *c15Universe, c *c15Case, st *c15RunStats) []string {
 	minted := map[int]*c15Minted{}
 	var trace []string
 	c.Outs = nil
@@ -490,6 +523,9 @@ func c15RunCodec(u *c15Universe, c *c15Case, st *c15RunStats) []string {
 			continue
 		}
 		k := &c.Keys[o.Ks]
+		if k.codec == nil {
+			continue // no hub was built from this configuration
+		}
 		switch o.K {
 		case "mint":
 			if o.Data == nil {
@@ -498,10 +534,22 @@ func c15RunCodec(u *c15Universe, c *c15Case, st *c15RunStats) []string {
 			m := o.Data.msg()
 			var id string
 			var err error
-			if o.Role == c15Private {
-				id, err = k.codec.EncodePrivate(m)
-			} else {
-				id, err = k.codec.EncodePublic(m)
+			for try := 0; ; try++ {
+				if o.Role == c15Private {
+					id, err = k.codec.EncodePrivate(m)
+				} else {
+					id, err = k.codec.EncodePublic(m)
+				}
+				// Configured hubs that share the hash key and differ in the block key are the region of
+				// the known finding C15/codec/blockkey-not-authenticated (the other block key turns the
+				// value into other bytes, and protobuf accepts about 0.7% of those).  The cases of mode 3
+				// stay outside it: an id whose value part, read with the CONFIGURED keys of another
+				// key set of the case by the real AES / protobuf, happens to parse is not used; the
+				// next Sid is minted instead.
+				if c.Mode != 3 || err != nil || try >= 40 || !c15InBlockKeyFindingRegion(c, o.Ks, o.Role, id) {
+					break
+				}
+				m.Sid++
 			}
 			var a c15Answers
 			ts, iv := u.mintAnswers(o.Role, k, m, id, &a)
@@ -574,6 +622,18 @@ func c15RunCodec(u *c15Universe, c *c15Case, st *c15RunStats) []string {
 func (c *c15Case) term(trace []string) string {
 	if c.Mode == 2 {
 		return fmt.Sprintf("mkhub %d (%s) %d %d %s", c.Id, c.Keys[0].coq(), c.NCaches, c.Size, coqList(trace))
+	}
+	if c.Mode == 3 {
+		var cfgs, built []string
+		for i := range c.Keys {
+			cfgs = append(cfgs, c.Keys[i].coqCfg())
+			b := "false"
+			if i < len(c.built) && c.built[i] {
+				b = "true"
+			}
+			built = append(built, b)
+		}
+		return fmt.Sprintf("mkconfig %d %s %s %s", c.Id, coqList(cfgs), coqList(built), coqList(trace))
 	}
 	var ks []string
 	for i := range c.Keys {
@@ -962,6 +1022,233 @@ func c15WitnessCases(t *testing.T, u *c15Universe, r *vrng, nextId int) []*c15Ca
 		}
 	}
 	return cs
+}
+
+// ---- hubs built from their configuration (NewHub) ---------------------------------------------------
+
+// a hub as CreateHubForTestWithConfig builds it, from the test configuration with the two key
+// options replaced; the error of NewHub is returned, not asserted
+func c15HubFromConfig(t *testing.T, k *c15Keyset) (*Hub, error) {
+	r := mux.NewRouter()
+	registerBackendHandler(t, r)
+	server := httptest.NewServer(r)
+	t.Cleanup(server.Close)
+	events := getAsyncEventsForTest(t)
+	config, err := getTestConfig(server)
+	if err != nil {
+		t.Fatal(err)
+	}
+	config.RemoveOption("sessions", "hashkey")
+	config.RemoveOption("sessions", "blockkey")
+	config.AddOption("sessions", "hashkey", string(k.hash))
+	if !k.Absent {
+		b, _ := hex.DecodeString(k.BlockHex)
+		config.AddOption("sessions", "blockkey", string(b))
+	}
+	h, err := NewHub(config, events, nil, nil, nil, r, "no-version")
+	if err != nil {
+		return nil, err
+	}
+	b, err := NewBackendServer(config, h, "no-version")
+	if err != nil {
+		t.Fatal(err)
+	}
+	if err := b.Start(r); err != nil {
+		t.Fatal(err)
+	}
+	go h.Run()
+	t.Cleanup(func() {
+		ctx, cancel := context.WithTimeout(context.Background(), testTimeout)
+		defer cancel()
+		WaitForHub(ctx, t, h)
+	})
+	return h, nil
+}
+
+// reads the value part of an id (minted under key set [from] of the case) with the configured keys
+// of every other key set of the case that has the same hash key and another block key (or none),
+// using the real AES-CTR and protobuf: true when one of them yields bytes that protobuf parses
+func c15InBlockKeyFindingRegion(c *c15Case, from int, role int, id string) bool {
+	b, err := base64.URLEncoding.DecodeString(id)
+	if err != nil {
+		return false
+	}
+	if role == c15Public {
+		b = c15Reverse(b)
+	}
+	parts := bytes.SplitN(b, []byte("|"), 3)
+	if len(parts) != 3 {
+		return false
+	}
+	v, err := base64.URLEncoding.DecodeString(string(parts[1]))
+	if err != nil {
+		return false
+	}
+	kf := &c.Keys[from]
+	for j := range c.Keys {
+		kj := &c.Keys[j]
+		if j == from || kj.codec == nil || !bytes.Equal(kj.hash, kf.hash) || bytes.Equal(kj.block, kf.block) {
+			continue
+		}
+		p := v
+		if kj.block != nil {
+			if len(v) <= aes.BlockSize {
+				continue
+			}
+			block, err := aes.NewCipher(kj.block)
+			if err != nil {
+				continue
+			}
+			p = make([]byte, len(v)-aes.BlockSize)
+			cipher.NewCTR(block, v[:aes.BlockSize]).XORKeyStream(p, v[aes.BlockSize:])
+		}
+		var d SessionIdData
+		if proto.Unmarshal(p, &d) == nil {
+			return true
+		}
+	}
+	return false
+}
+
+// runs a case of mode 3: one hub per configuration, through NewHub; then the codec operations on
+// the codecs these hubs hold (hub.cookie: what processRegister mints with and what
+// decodePrivateSessionId / decodePublicSessionId decode with)
+func c15RunConfig(t *testing.T, u *c15Universe, c *c15Case, st *c15RunStats) []string {
+	c.built = nil
+	for i := range c.Keys {
+		k := &c.Keys[i]
+		u.initConfigKeyset(k)
+		hub, err := c15HubFromConfig(t, k)
+		c.built = append(c.built, err == nil)
+		if err == nil {
+			k.codec = hub.cookie
+		}
+	}
+	return c15RunCodecOps(u, c, st)
+}
+
+// texts for key options: bytes that the configuration layer hands through unchanged (no '$' and no
+// '%': GetStringOptionWithEnv / goconf expand them); now and then two-byte UTF-8 characters, so
+// that the number of characters and the number of bytes differ
+func c15KeyText(r *vrng, n int) []byte {
+	const alpha = "ABCDEFGHIJKLMNOPQRSTUVWXYZabcdefghijklmnopqrstuvwxyz0123456789-_.:,;!?+*/=<>()[]{}|~^@& "
+	var b []byte
+	for len(b) < n {
+		if n-len(b) >= 2 && r.chance(6) {
+			b = append(b, []byte(pick(r, []string{"é", "ü", "ß", "ж"}))...)
+		} else {
+			b = append(b, alpha[r.intn(len(alpha))])
+		}
+	}
+	return b
+}
+
+var c15BadBlockLens = []int{1, 8, 15, 17, 20, 23, 25, 31, 33, 40, 48, 64}
+
+// the ops of a mode 3 case: every valid configuration mints one value under both roles; every id is
+// decoded under its own configuration and under every other one (own role; now and then the other)
+func c15ConfigOps(r *vrng, c *c15Case, valid []int, all bool) {
+	label := 0
+	type mint struct{ label, ks, role int }
+	var mints []mint
+	for _, i := range valid {
+		d := c15GenData(r, false)
+		for !utf8.ValidString(d.msg().BackendId) {
+			d = c15GenData(r, false)
+		}
+		if d.Sid > 1<<62 {
+			d.Sid = uint64(1 + r.intn(1000)) // room for the next Sid
+		}
+		for role := 0; role < 2; role++ {
+			label++
+			c.Ops = append(c.Ops, c15Op{K: "mint", Label: label, Role: role, Ks: i, Data: d})
+			mints = append(mints, mint{label, i, role})
+		}
+	}
+	idm := c15Mut{K: "id"}
+	for _, m := range mints {
+		for _, j := range valid {
+			if !all && j != m.ks && !r.chance(60) {
+				continue
+			}
+			c.Ops = append(c.Ops, c15Op{K: "dec", Role: m.role, Ks: j, Src: &c15Src{Base: m.label, Which: m.role, Mut: idm}})
+			if r.chance(10) {
+				c.Ops = append(c.Ops, c15Op{K: "dec", Role: 1 - m.role, Ks: j, Src: &c15Src{Base: m.label, Which: m.role, Mut: idm}})
+			}
+			if r.chance(10) {
+				c.Ops = append(c.Ops, c15Op{K: "dec", Role: 1 - m.role, Ks: j, Src: &c15Src{Base: m.label, Which: m.role, Mut: c15Mut{K: "reverse"}}})
+			}
+		}
+	}
+}
+
+// directed: one hash key; two different block keys of each valid length, no block key (option
+// absent / empty), a twin of the first configuration, the first block key under another hash key;
+// block keys of invalid lengths (NewHub must refuse them)
+func c15DirectedConfigCase(r *vrng, id int) *c15Case {
+	c := &c15Case{Id: id, Mode: 3, Note: "hubs built by NewHub: block keys of 16 / 24 / 32 bytes, none, invalid lengths; one hash key"}
+	hk := hex.EncodeToString(c15KeyText(r, pick(r, []int{32, 64, 16, 20})))
+	var valid []int
+	add := func(k c15Keyset, ok bool) {
+		if ok {
+			valid = append(valid, len(c.Keys))
+		}
+		c.Keys = append(c.Keys, k)
+	}
+	for _, n := range []int{16, 24, 32} {
+		add(c15Keyset{HashHex: hk, BlockHex: hex.EncodeToString(c15KeyText(r, n))}, true)
+		add(c15Keyset{HashHex: hk, BlockHex: hex.EncodeToString(c15KeyText(r, n))}, true)
+	}
+	add(c15Keyset{HashHex: hk, Absent: true}, true)
+	add(c15Keyset{HashHex: hk}, true)
+	twin := r.intn(6)
+	add(c15Keyset{HashHex: hk, BlockHex: c.Keys[twin].BlockHex}, true)
+	add(c15Keyset{HashHex: hex.EncodeToString(c15KeyText(r, 32)), BlockHex: c.Keys[r.intn(6)].BlockHex}, true)
+	for i := 0; i < 4; i++ {
+		add(c15Keyset{HashHex: hk, BlockHex: hex.EncodeToString(c15KeyText(r, pick(r, c15BadBlockLens)))}, false)
+	}
+	// 16 characters that are 32 bytes, 8 that are 16, 16 that are 17
+	add(c15Keyset{HashHex: hk, BlockHex: hex.EncodeToString([]byte(strings.Repeat("é", 16)))}, true)
+	add(c15Keyset{HashHex: hk, BlockHex: hex.EncodeToString([]byte(strings.Repeat("ü", 8)))}, true)
+	add(c15Keyset{HashHex: hk, BlockHex: hex.EncodeToString([]byte("é" + strings.Repeat("k", 15)))}, false)
+	c15ConfigOps(r, c, valid, true)
+	return c
+}
+
+// random: 3 to 5 configurations, hash keys mostly shared, block key lengths valid and invalid
+func c15GenConfigCase(r *vrng, id int) *c15Case {
+	c := &c15Case{Id: id, Mode: 3, Note: "hubs built by NewHub from random key options"}
+	hks := []string{hex.EncodeToString(c15KeyText(r, pick(r, []int{32, 64, 16, 1, 33}))), hex.EncodeToString(c15KeyText(r, pick(r, []int{32, 64})))}
+	var valid []int
+	var oks []bool
+	n := 3 + r.intn(3)
+	for i := 0; i < n; i++ {
+		k := c15Keyset{HashHex: hks[0]}
+		if r.chance(20) {
+			k.HashHex = hks[1]
+		}
+		ok := true
+		switch x := r.intn(100); {
+		case x < 65:
+			k.BlockHex = hex.EncodeToString(c15KeyText(r, pick(r, []int{16, 24, 32})))
+		case x < 75 && i > 0: // the block key option of an earlier configuration
+			j := r.intn(i)
+			k.BlockHex, k.Absent = c.Keys[j].BlockHex, c.Keys[j].Absent
+			ok = oks[j]
+		case x < 85:
+			k.Absent = r.chance(50)
+		default:
+			k.BlockHex = hex.EncodeToString(c15KeyText(r, pick(r, c15BadBlockLens)))
+			ok = false
+		}
+		if ok {
+			valid = append(valid, i)
+		}
+		oks = append(oks, ok)
+		c.Keys = append(c.Keys, k)
+	}
+	c15ConfigOps(r, c, valid, false)
+	return c
 }
 
 // ---- hub -------------------------------------------------------------------------------------------
@@ -1514,9 +1801,9 @@ func TestVerifC15(t *testing.T) {
 	defer log.SetOutput(prevOut)
 
 	u := newC15Universe()
-	nCodec, nCraft, nHub := 40, 12, 14
+	nCodec, nCraft, nHub, nConfig := 40, 12, 14, 2
 	if env.thorough() {
-		nCodec, nCraft, nHub = 640, 160, 160
+		nCodec, nCraft, nHub, nConfig = 640, 160, 160, 40
 	}
 	var cases []*c15Case
 	if env.replay != "" {
@@ -1542,6 +1829,10 @@ func TestVerifC15(t *testing.T) {
 			id++
 		}
 		cases = append(cases, c15DirectedHubCases(8000000)...)
+		cases = append(cases, c15DirectedConfigCase(newVrng(env.seed, 88001), 8100000))
+		for i := 0; i < nConfig; i++ {
+			cases = append(cases, c15GenConfigCase(newVrng(env.seed, uint64(88100+i)), 8100001+i))
+		}
 		cases = append(cases, c15WitnessCases(t, u, newVrng(env.seed, 99991), id)...)
 	}
 	st := &c15RunStats{errs: map[string]int{}}
@@ -1555,6 +1846,10 @@ func TestVerifC15(t *testing.T) {
 			}
 			t.Run(fmt.Sprintf("hub%d", c.Id), func(t *testing.T) {
 				trace = c15RunHub(t, u, c, st)
+			})
+		} else if c.Mode == 3 {
+			t.Run(fmt.Sprintf("config%d", c.Id), func(t *testing.T) {
+				trace = c15RunConfig(t, u, c, st)
 			})
 		} else {
 			trace = c15RunCodec(u, c, st)
@@ -1589,6 +1884,7 @@ func TestVerifC15(t *testing.T) {
 	sink.stats.Notes = append(sink.stats.Notes,
 		"codec cases: one data value minted as private and public id under key set 0 and under another key set; every single-bit flip of the first/last bytes and of random positions, truncations, extensions, CR/LF and other bytes inserted, every trailing-bit re-spelling, standard alphabet, no padding, re-encoding, reversal, other role, other keys, twin key set",
 		"craft cases: strings built with the real keys (time stamp strings, value parts, MAC variants) to reach every check of the decoder; length cases around 4096 characters",
+		"config cases: one hub per configuration through NewHub ([sessions] hashkey / blockkey: block keys of 16, 24, 32 bytes, none, absent, invalid lengths, multi-byte characters; shared and different hash keys); every id minted with a hub's codec is decoded with the codec of every other hub; the key sets on the Coq side are the model's reading of the configuration texts",
 		"hub cases: real Hub (CreateHubForTest) with small decode caches; register (hello), remove (bye), GetSessionByResumeId / GetSessionByPublicId, hello with resume id, the hub's decoders of both roles applied to the ids handed out (own role, other role, reversal, re-spellings) and to texts never minted, cache dumps")
 	sink.close("seeded cases on the real SessionIdCodec / Hub; non-trivial = an id was minted, at least one string accepted and one rejected; distinct = distinct observation sequences")
 }
